@@ -2,6 +2,7 @@ package pbar
 
 import (
 	"io"
+	"sync"
 
 	"github.com/vbauerster/mpb/v8"
 )
@@ -33,6 +34,8 @@ func NewNoopBar() Bar {
 }
 
 type bar struct {
+	// once guards the lazy creation of b: a bar is shared by worker goroutines
+	once  sync.Once
 	b     *mpb.Bar
 	c     *Container
 	total int64
@@ -50,11 +53,9 @@ func newBar(c *Container, total int64, name string, unit int) *bar {
 }
 
 func (b *bar) ensureInternalBar() {
-	if b.b != nil {
-		return
-	}
-	b.c.ensureProgress()
-	b.b = b.c.addBar(b.total, b.name, b.unit)
+	b.once.Do(func() {
+		b.b = b.c.addBar(b.total, b.name, b.unit)
+	})
 }
 
 func (b *bar) Incr() {
